@@ -197,6 +197,8 @@ func (ev *Eval) ev(e SExpr) (sval, error) {
 	switch x := e.(type) {
 	case *SLit:
 		return sval{v: Val{Typ: untypedInt, Comps: []Term{bigLit(x.Val)}}}, nil
+	case *SFloatLit:
+		return sval{v: Val{Typ: types.Typ[types.Float64], Comps: []Term{raw(realLit(x.Val), SReal)}}}, nil
 	case *SStrLit:
 		return sval{v: Val{Typ: types.Typ[types.String], Comps: []Term{g.strLit(x.Val)}}}, nil
 	case *STypeExpr:
